@@ -231,16 +231,11 @@ func optionNeighbours(L *Layout) []*Layout {
 	return out
 }
 
-func checkNeverConsulted(c *Ctx, L *Layout, base *Outcome, events []zsimrt.IOEvent, execSeed uint64, policy int) {
-	if !base.OK {
-		return
-	}
-	touched := map[string]bool{}
-	for _, e := range events {
-		touched[e.Path] = true
-	}
-	// what the loaded project itself says its enabled services read: label files always, required env files
-	// unless the environment is left unresolved (the lists are emptied when env files are discarded)
+// filesInPlay: the files the load of L has to look at, by class.
+//   - structurally (see structurallyInPlay) among the files the generator recorded as referenced;
+//   - what the loaded project itself says its enabled services read: label files always, required env files
+//     unless the environment is left unresolved.
+func filesInPlay(L *Layout, base *Outcome) []string {
 	fromProject := map[string]bool{}
 	ref := base.Project
 	if L.Opts.DiscardEnvFiles && L.Entry != "model" {
@@ -281,10 +276,25 @@ func checkNeverConsulted(c *Ctx, L *Layout, base *Outcome, events []zsimrt.IOEve
 		}
 	}
 	sort.Strings(req)
+	var out []string
 	for i, p := range req {
 		if (i > 0 && req[i-1] == p) || !(fromProject[p] || structurallyInPlay(L, p, 0)) {
 			continue
 		}
+		out = append(out, p)
+	}
+	return out
+}
+
+func checkNeverConsulted(c *Ctx, L *Layout, base *Outcome, events []zsimrt.IOEvent, execSeed uint64, policy int) {
+	if !base.OK {
+		return
+	}
+	touched := map[string]bool{}
+	for _, e := range events {
+		touched[e.Path] = true
+	}
+	for _, p := range filesInPlay(L, base) {
 		c.Count("referenced-files-in-play:"+fileClass(p), 1)
 		if touched[p] {
 			continue
@@ -304,13 +314,19 @@ func checkNeverConsulted(c *Ctx, L *Layout, base *Outcome, events []zsimrt.IOEve
 
 // judgeNeverConsulted: one referenced file, in play, made absent from the start; the fault-free load never
 // looked at it and the load without it succeeds all the same.
-// (That the file is in play is established by the caller, checkNeverConsulted, and on replay by c01Exec.)
 func judgeNeverConsulted(L *Layout, base *Outcome, baseEvents []zsimrt.IOEvent, faults []*zsimrt.Fault, out *Outcome) (clause, key, detail string) {
 	if len(faults) != 1 || base == nil || !base.OK || !out.OK {
 		return
 	}
 	f := faults[0]
 	if f.Kind != "enoent" || !f.Sticky || f.AtSeq != 0 {
+		return
+	}
+	inPlay := false
+	for _, p := range filesInPlay(L, base) {
+		inPlay = inPlay || p == f.Path
+	}
+	if !inPlay {
 		return
 	}
 	for _, e := range baseEvents {
